@@ -101,9 +101,90 @@ Proof.
     + rewrite R. split; [apply safe_Ok | inside_tac].
 Qed.
 
-Lemma HBH_spec v : wf v -> bytes_ok (arr v) -> HBH_IsValid v = Ok true -> getters_spec [] HBH_getters HBH_specs v.
+Lemma hbh_dev_range f v dl : forall pos, hbh_dev f v dl pos = 0 \/ hbh_dev f v dl pos = 1 \/ hbh_dev f v dl pos = 2.
 Proof.
-  intros W B H. destruct (HBH_valid_facts v H) as [H2 HL]. unfold HBH_getters, HBH_specs.
+  induction f as [|f IH]; intros pos; [left; reflexivity|]. cbn [hbh_dev].
+  repeat match goal with |- context [if ?c then _ else _] => destruct c end; auto.
+Qed.
+
+Lemma land31_nz b : N.land b 31 <> 0 -> b <> 0.
+Proof. intros H E. subst. apply H. reflexivity. Qed.
+
+Lemma hbh_lockstep v dl : wf v -> (2 + dl <= len v)%nat ->
+  let D := {| arr := skipn 2 (arr v); len := dl |} in
+  let Dl := sub (view v) 2 dl in
+  forall f pos, (pos < dl)%nat -> (dl - pos < f)%nat -> hbh_dev f v dl pos = 0 ->
+  forall f1 f2, (dl - pos < f1)%nat -> (dl - pos < f2)%nat ->
+  hbh_walk f1 D pos = Ok (if hbh_tlvs_ok f2 (skipn pos Dl) then VU else VE).
+Proof.
+  intros W Hd D Dl. pose proof (view_length v W) as L. unfold wf in W.
+  assert (LD : List.length Dl = dl) by (unfold Dl; apply sub_length; rewrite L; lia).
+  assert (ND : forall i, (i < dl)%nat -> nth i Dl 0 = nth (2 + i) (arr v) 0).
+  { intros i Hi. unfold Dl, sub. rewrite nth_firstn by lia. rewrite nth_skipn. apply nth_view. lia. }
+  assert (CAPD : (dl <= cap D)%nat) by (unfold D, cap; cbn [arr]; rewrite skipn_length; unfold cap in W; lia).
+  induction f as [|f IH]; intros pos Hp Hf Hdev f1 f2 H1 H2; [lia|].
+  destruct f1 as [|f1]; [lia|]. destruct f2 as [|f2]; [lia|].
+  cbn [hbh_dev] in Hdev. destruct (Nat.leb_spec dl pos); [lia|]. unfold bt in Hdev.
+  cbn [hbh_walk hbh_tlvs_ok]. unfold D at 1. rewrite slfrom_ok by (cbn [len]; lia). cbn [bind len arr].
+  destruct (Nat.ltb_spec (dl - pos) 1); [lia|].
+  rewrite idx_ok by (cbn [len]; lia). cbn [bind arr]. rewrite nth_skipn, nth_skipn.
+  replace (2 + (pos + 0))%nat with (2 + pos)%nat by lia.
+  rewrite (skipn_nth_cons Dl pos 0) by lia. rewrite (ND pos) by lia.
+  set (b0 := nth (2 + pos) (arr v) 0) in *.
+  assert (SK : forall a, skipn a (skipn (S pos) Dl) = skipn (S pos + a) Dl) by (intros; apply skipn_skipn').
+  change (len D) with dl.
+  destruct (N.land b0 31 =? 0) eqn:T0.
+  - (* Pad1 *)
+    destruct (b0 =? 0) eqn:Z; [|discriminate]. cbn [bind].
+    destruct (Nat.leb_spec dl (pos + 1)).
+    + assert (S pos = dl) by lia. rewrite (skipn_all2 Dl) by lia. destruct f2; [lia|]. reflexivity.
+    + replace (pos + 1)%nat with (S pos) by lia. apply IH; lia.
+  - assert (NZ : (b0 =? 0) = false) by (apply N.eqb_neq, land31_nz; lia). rewrite NZ.
+    destruct (N.land b0 31 =? 5) eqn:T5.
+    + (* treated as a router alert *)
+      destruct ((b0 =? 5) && (nth (2 + pos + 1) (arr v) 0 =? 2) && Nat.leb (pos + 4) dl)%bool eqn:RA.
+      * destruct (Nat.ltb_spec (dl - pos) 4); [lia|]. rewrite sl_ok by (unfold cap in *; cbn [arr]; rewrite ?skipn_length; lia). cbn [bind].
+        rewrite (skipn_nth_cons Dl (S pos) 0) by lia. rewrite (ND (S pos)) by lia.
+        replace (2 + S pos)%nat with (2 + pos + 1)%nat by lia.
+        assert (nth (2 + pos + 1) (arr v) 0 = 2) as -> by lia. change (N.to_nat 2) with 2%nat.
+        rewrite skipn_length, LD. destruct (Nat.ltb_spec (dl - S (S pos)) 2); [lia|].
+        rewrite skipn_skipn'. replace (S (S pos) + 2)%nat with (pos + 4)%nat by lia.
+        destruct (Nat.leb_spec dl (pos + 4)).
+        -- rewrite (skipn_all2 Dl) by lia. destruct f2; [lia|]. reflexivity.
+        -- apply IH; lia.
+      * destruct ((b0 =? 5) && (nth (2 + pos + 1) (arr v) 0 =? 2))%bool eqn:RB.
+        -- (* a real router alert that does not fit *)
+           destruct (Nat.ltb_spec (dl - pos) 4); [|lia]. cbn [bind].
+           destruct (skipn (S pos) Dl) as [|n r'] eqn:ES; [reflexivity|].
+           assert (LS : List.length (skipn (S pos) Dl) = S (List.length r')) by (rewrite ES; reflexivity).
+           rewrite skipn_length, LD in LS.
+           assert (n = 2) as ->.
+           { assert (HN : nth 0 (skipn (S pos) Dl) 0 = n) by (rewrite ES; reflexivity).
+             rewrite nth_skipn in HN. rewrite ND in HN by lia. replace (2 + (S pos + 0))%nat with (2 + pos + 1)%nat in HN by lia. lia. }
+           change (N.to_nat 2) with 2%nat. destruct (Nat.ltb_spec (List.length r') 2); [reflexivity|lia].
+        -- destruct (Nat.ltb_spec (dl - pos) 2); [|discriminate].
+           destruct (Nat.ltb_spec (dl - pos) 4); [|lia]. cbn [bind].
+           rewrite (skipn_all2 Dl) by lia. reflexivity.
+    + (* any other type: TLV *)
+      destruct (Nat.ltb_spec (dl - pos) 2).
+      * cbn [bind]. rewrite (skipn_all2 Dl) by lia. reflexivity.
+      * rewrite idx_ok by (cbn [len]; lia). cbn [bind arr]. rewrite nth_skipn, nth_skipn.
+        replace (2 + (pos + 1))%nat with (2 + pos + 1)%nat by lia.
+        rewrite (skipn_nth_cons Dl (S pos) 0) by lia. rewrite (ND (S pos)) by lia.
+        replace (2 + S pos)%nat with (2 + pos + 1)%nat by lia.
+        set (b1 := nth (2 + pos + 1) (arr v) 0) in *.
+        destruct (Nat.ltb_spec dl (pos + 2 + N.to_nat b1)); [discriminate|].
+        rewrite skipn_length, LD. destruct (Nat.ltb_spec (dl - S (S pos)) (N.to_nat b1)); [lia|].
+        rewrite skipn_skipn'. replace (S (S pos) + N.to_nat b1)%nat with (pos + 2 + N.to_nat b1)%nat by lia.
+        replace (pos + N.to_nat b1 + 2)%nat with (pos + 2 + N.to_nat b1)%nat by lia.
+        destruct (Nat.leb_spec dl (pos + 2 + N.to_nat b1)).
+        -- rewrite (skipn_all2 Dl) by lia. destruct f2; [lia|]. reflexivity.
+        -- apply IH; lia.
+Qed.
+
+Lemma HBH_spec v : wf v -> bytes_ok (arr v) -> HBH_IsValid v = Ok true -> getters_spec HBH_findings_C02 HBH_getters HBH_specs v.
+Proof.
+  intros W B H. destruct (HBH_valid_facts v H) as [H2 HL]. unfold HBH_getters, HBH_specs. pose proof W as W'.
   unfold wf in W. pose proof (view_length _ W) as L. unfold getters_spec. each_spec.
   - (* Data *) intros _. cbn beta. unfold hbh_len. norm_bits. view_fields L. pow_lits.
     pose proof (bytes_ok_nth (arr v) 1 B).
@@ -111,6 +192,21 @@ Proof.
     unfold lval. cbn [loff lsl len]. strip; lia.
   - c02_fixed B L.
   - c02_fixed B L.
+  - (* ParseHopByHopExtensions: outside the two recorded classes the code's walk is the RFC tiling *)
+    intros K. simp_known K. unfold hbh_dlen, bt in K.
+    pose proof (bytes_ok_nth (arr v) 1 B) as B1.
+    set (dl := (N.to_nat (nth 1%nat (arr v) 0%N) * 8 + 6)%nat) in *.
+    assert (DEV : hbh_dev (S dl) v dl 0 = 0) by (destruct (hbh_dev_range (S dl) v dl 0) as [E|[E|E]]; [exact E | rewrite E in K; discriminate | rewrite E in K; discriminate]).
+    cbn beta. unfold hbh_options, hbh_len. norm_bits. rewrite field_be_1 by (rewrite L; lia). rewrite nth_view by lia. pow_lits.
+    replace (N.to_nat (8 * ((nth 1%nat (arr v) 0 / 1) mod 256) + 8)%N - 2)%nat with dl by (unfold dl; lia).
+    unfold HBH_Parse, HBH_Data_l, HBH_Len_n, lsub, orr, lenN. slices.
+    destruct (N.of_nat (len v) <? 2) eqn:E; [lia|]. slices.
+    destruct (N.of_nat (len v) <? nth 1 (arr v) 0 * 8 + 8) eqn:E2; [lia|]. cbn [lsl].
+    rewrite sl_ok by lia. cbn [bind lsl]. unfold lenL. cbn [lsl len].
+    replace (N.to_nat (nth 1%nat (arr v) 0 * 8 + 8)%N - 2)%nat with dl by (unfold dl; lia).
+    rewrite (hbh_lockstep v dl W') with (f := S dl) (f2 := S (List.length (sub (view v) 2 dl))); try lia; try exact DEV.
+    + reflexivity.
+    + rewrite sub_length by (rewrite L; unfold dl; lia). lia.
 Qed.
 
 (* ---------------- DHCP4 ---------------- *)
@@ -270,4 +366,27 @@ Proof.
       cbn [dhcp_opts]. rewrite S. reflexivity.
   - (* SName *) intros _. unfold DHCP4_SName, trim_null, scstring. slices. cbn [arr].
     rewrite sub_view by lia. unfold sub. rewrite first_zero_strnlen. reflexivity.
+Qed.
+
+(* witnesses of the two recorded classes of ParseHopByHopExtensions (replayed on the real code by the harness) *)
+Definition w_hbh_mask : slice := of_bytes [59;0; 32;4;0;0;0;7; 0;0].
+Lemma HBH_parse_masked_refuted :
+  wf w_hbh_mask /\ bytes_ok (arr w_hbh_mask) /\ HBH_IsValid w_hbh_mask = Ok true /\
+  HBH_Parse w_hbh_mask = Ok VE /\ lookup "ParseHopByHopExtensions" HBH_specs <> None /\
+  (forall s, lookup "ParseHopByHopExtensions" HBH_specs = Some (Some s) -> s (view w_hbh_mask) = VU) /\
+  key_of HBH_findings_C02 "ParseHopByHopExtensions" w_hbh_mask = Some "view-hbh-option-type-masked"%string.
+Proof.
+  repeat split; try (vm_compute; lia); try (apply bytes_okb_spec; vm_compute; reflexivity); try (vm_compute; reflexivity).
+  - vm_compute. discriminate.
+  - intros s Hs. cbn in Hs. injection Hs as <-. vm_compute. reflexivity.
+Qed.
+Definition w_hbh_overrun : slice := of_bytes [59;0; 1;9;0;0;0;0; 0;0].
+Lemma HBH_parse_overrun_refuted :
+  wf w_hbh_overrun /\ bytes_ok (arr w_hbh_overrun) /\ HBH_IsValid w_hbh_overrun = Ok true /\
+  HBH_Parse w_hbh_overrun = Ok VU /\
+  (forall s, lookup "ParseHopByHopExtensions" HBH_specs = Some (Some s) -> s (view w_hbh_overrun) = VE) /\
+  key_of HBH_findings_C02 "ParseHopByHopExtensions" w_hbh_overrun = Some "view-hbh-option-overrun-accepted"%string.
+Proof.
+  repeat split; try (vm_compute; lia); try (apply bytes_okb_spec; vm_compute; reflexivity); try (vm_compute; reflexivity).
+  intros s Hs. cbn in Hs. injection Hs as <-. vm_compute. reflexivity.
 Qed.
